@@ -163,7 +163,8 @@ def blip_allow_list(ctx):
         ctx.cov["evaluations"] += sum(1 for r in rows if r["a"] == "Reset")
         ctx.cov["blip_allow_list"] = {"connections": sum(1 for r in rows if r["a"] == "Reset"), "getAttachment_probes": len(gets),
                                       "served_during_pull": served_in, "refused": sum(1 for r in gets if not r["served"]),
-                                      "windows_seen_closed": sum(1 for r in rows if r["a"] == "Ack" and r["closed"])}
+                                      "windows_seen_closed": sum(1 for r in rows if r["a"] in ("Ack", "Rej") and r["closed"]),
+                                      "revs_answered_with_error": sum(1 for r in rows if r["a"] == "Rej")}
         if bad is not None:
             ctx.notes.append("BLIP allow-list: %s failed once and did not reproduce (wall-clock bound): %s" % (bad[0], bad[1]))
         return
@@ -357,12 +358,12 @@ def measure(ctx, behs, per):
 
 
 def slim(r):
-    o = {k: r[k] for k in ("a", "i", "k", "d", "r", "p", "s", "h", "ok", "e", "allow", "eccv", "lim", "clen") if k in r}
+    o = {k: r[k] for k in ("a", "i", "k", "d", "r", "p", "s", "h", "ok", "e", "allow", "eccv", "lim", "clen", "cenc", "celen") if k in r}
     S = r.get("S")
     if S:
         o["docs"] = [{"d": D["d"], "tree": D["tree"], "cur": D["cur"], "leaves": D["leaves"],
-                      "stored": ["l%(l)s/%(n)s=c%(dg)s len%(ln)s revpos%(rp)s exists=%(ex)s read=c%(rd)s" % a for a in D["atts"]],
-                      "api": ["l%(l)s/%(n)s=c%(dg)s len%(ln)s read=c%(rd)s" % a for a in D["api"]],
+                      "stored": ["l%(l)s/%(n)s=c%(dg)s len%(ln)s enc=%(enc)s/%(eln)s revpos%(rp)s exists=%(ex)s read=c%(rd)s" % a for a in D["atts"]],
+                      "api": ["l%(l)s/%(n)s=c%(dg)s len%(ln)s enc=%(enc)s/%(eln)s read=c%(rd)s" % a for a in D["api"]],
                       "apierr": D["apierr"]} for D in S["docs"] if D["tree"]]
         o["data_docs"] = S["blob"]
     return o
